@@ -144,10 +144,11 @@ def emit(rs, ref):
             lpairs(r["mandatory"]), lpairs(r["optionals"]), lopt(r["partner"]), "," if i + 1 < len(rs) else ""))
     o += ["]", "", "/-- vendored reference snapshot reference/commands.json -/", "def commandsRef : List RefRow := ["]
     for i, r in enumerate(ref):
-        o.append("  { nameKey := %d, isRequest := %s, cmd := %d, app := %s, appParam := %s, mandatoryKeys := %s }%s" % (
+        o.append("  { nameKey := %d, isRequest := %s, cmd := %d, app := %s, appParam := %s, mandatoryKeys := %s," % (
             nkey(r["name"]), "true" if r["is_request"] else "false", r["cmd"], lopt(r["app"]),
-            "none" if not r["app_param"] else "(some %s)" % lstr(r["app_param"]), lstrs(sorted(r["mandatory_keys"])),
-            "," if i + 1 < len(ref) else ""))
+            "none" if not r["app_param"] else "(some %s)" % lstr(r["app_param"]), lstrs(sorted(r["mandatory_keys"]))))
+        o.append("    keyAvps := [%s] }%s" % (", ".join("(%s, %d, %d)" % (lstr(k), v or 0, c) for k, v, c in r.get("key_avps", [])),
+                                              "," if i + 1 < len(ref) else ""))
     o += ["]", "", "end BV.Gen", ""]
     return "\n".join(o)
 
@@ -162,8 +163,18 @@ if __name__ == "__main__":
     import sys
     if len(sys.argv) > 1 and sys.argv[1] == "--make-reference":
         rs = rows()
-        ref = [{"name": r["name"], "is_request": r["is_request"], "cmd": r["cmd"], "app": r["app"], "app_param": r["app_param"],
-                "mandatory_keys": sorted(k for k, _ in r["mandatory"])} for r in rs]
+        # key -> (vendor, code) of the AVP it carries, resolved through the reviewed dictionary snapshot by the naming
+        # convention key "pua_flags" <-> class "PuaFlagsAVP" (reference/README.md lists the one exception)
+        dref = {d["name"].lower(): d for d in json.load(open(os.path.join(VERIF, "reference", "dictionary.json")))}
+        camel = lambda k: ("".join(k.split("_")) + "avp").lower()
+        ref = []
+        for r in rs:
+            ka = []
+            for k, _cls in r["mandatory"] + r["optionals"]:
+                d = dref.get(camel(k)) or dref[camel(k[:-4])]
+                ka.append([k, d["vendor"], d["code"]])
+            ref.append({"name": r["name"], "is_request": r["is_request"], "cmd": r["cmd"], "app": r["app"], "app_param": r["app_param"],
+                        "mandatory_keys": sorted(k for k, _ in r["mandatory"]), "key_avps": ka})
         json.dump(ref, open(os.path.join(VERIF, "reference", "commands.json"), "w"), indent=0)
         print("wrote", len(ref))
     else:
